@@ -91,7 +91,10 @@ def cases(ctx):
             if mine():
                 yield {"kind": "ret_arr_typed", "address": pick(rng, I32), "dtype": ty, "seed": rng.randrange(2**31), "length": ln}
     # long arrays (an entanglement-result array has 10 entries per pair): lengths around and beyond 2^16, by seed
-    for ln in ([65535, 65536, 65537, 70000] if ctx.quick else [65535, 65536, 65537, 70000, 2**17 + 1, 2**18, 2**20 + 5]):
+    # (block-wise packing has its boundaries at powers of two of entries or bytes: exact multiples and one off, on both tiers)
+    for ln in ([65535, 65536, 65537, 70000, 2**17 - 1, 2**17, 2**17 + 1, 2**18, 2**18 + 3] if ctx.quick else
+               [65535, 65536, 65537, 70000, 2**17 - 1, 2**17, 2**17 + 1, 2**18 - 1, 2**18, 2**18 + 3, 3 * 2**17, 3 * 2**17 + 1, 2**19, 2**19 + 1,
+                2**20, 2**20 + 5, 2**21]):
         if mine():
             yield {"kind": "ret_arr_long", "address": pick(rng, I32), "length": ln, "p_none": rng.choice([0.1, 0.5, 0.9]),
                    "seed": rng.randrange(2**31)}
